@@ -7,7 +7,7 @@
 2. spec -> code, real sockets, 600 ms handshake timeout: TLC-simulated behaviours (probe classes incl. replays and
    reflected replays, bit flips, FIN or not, sends at different ticks); FIN vs RST seen by the prober; nothing written.
 3. spec -> code, virtual time (testing/synctest, in-memory conns, 59 s timeout): the same behaviours plus a sweep over
-   lengths x ciphers x key-list sizes x replay cache on/off x bit-flip offset classes; close instants compared exactly.
+   lengths x ciphers x key-list sizes (0, 1, 3, 100) x replay cache on/off x bit-flip offset classes; close instants compared exactly.
 4. code -> spec: every connection record judged by TLC against the property layer (TcpConnTrace.tla).
 """
 import json, os, random
@@ -51,6 +51,12 @@ def run(ctx):
     post = [b for b in behs if tc.features(b)["hs"][0] == "valid" and not tc.features(b)["probe"]]
     pick = tc.select(probes, 140 if q else 1200, lambda f: (f["hs"], min(f["ntok"], 4), f["ticks"] > 2), rng)
     pick += tc.select(post, 40 if q else 400, lambda f: (f["bad"], f["dial"], f["ticks"] > 2), rng)
+    # key-list size 0 as well: a service without keys must absorb probes like any other
+    import copy
+    for b in [b for b in pick if tc.features(b)["hs"][0] == "garbage"][:12 if q else 100]:
+        e = copy.deepcopy(b)
+        e["ov"] = {"emptykeys": True}
+        pick.append(e)
     cases, _, _, hung = tc.run_family(ctx, "C06_", pick, label="c06-timed", par=8, **tc.TIMED)
     if hung:
         raise vlib.Inconclusive("handlers still running after the script ended: %s" % ctx.notes[-1])
